@@ -86,8 +86,8 @@ def gen_cases(tier):
     bound = 1 if tier == "quick" else 2
     k = 0
     nsub = bounds(tier)["subprocess_cases"]
-    yield {"kind": "text", "files": {"m.emb": BIG}, "main": "m.emb", "label": "big-constants", "subprocess": True}
-    yield {"kind": "text", "files": {"m.emb": IMPORT_MAIN, "imp.emb": IMPORT_IMP}, "main": "m.emb", "label": "import-family", "subprocess": True}
+    yield {"kind": "text", "files": {"m.emb": BIG}, "main": "m.emb", "label": "big-constants", "subprocess": "all"}
+    yield {"kind": "text", "files": {"m.emb": IMPORT_MAIN, "imp.emb": IMPORT_IMP}, "main": "m.emb", "label": "import-family", "subprocess": "all"}
     for f in sorted(glob.glob(os.path.join(common.REPO, "testdata", "*.emb"))):
         yield {"kind": "corpus", "file": os.path.relpath(f, common.REPO), "subprocess": False}
     for forced, trace, prog in explore.enumerate_vectors(embgen.program, bound):
@@ -134,16 +134,23 @@ def struct_eq(a, b, path, cov, diffs):
         diffs.append("%s: %r vs %r" % (path, a, b))
 
 
-def run_subprocess_equivalence(files, main):
+def run_subprocess_equivalence(files, main, traits=True, odd_name=False):
     """embossc vs emboss_front_end --output-file | emboss_codegen_cpp --input-file."""
     d = tempfile.mkdtemp(prefix="embverif-")
     try:
+        if odd_name:
+            # a source file whose name is not valid UTF-8 (argv then carries a surrogate escape)
+            files = dict(files)
+            newmain = "caf\udce9.emb"
+            files[newmain] = files.pop(main)
+            main = newmain
         for n, t in files.items():
-            with open(os.path.join(d, n), "w") as f:
+            with open(os.path.join(os.fsencode(d), os.fsencode(n)), "w") as f:
                 f.write(t)
         env = dict(os.environ, PYTHONHASHSEED="0", PYTHONPATH=common.REPO)
+        tflag = ["--cc-enum-traits"] if traits else ["--no-cc-enum-traits"]
         r1 = subprocess.run([sys.executable, os.path.join(common.REPO, "embossc"), "--color-output", "never", "-I", d, "--output-path", d,
-                             "--output-file", "one.h", main], capture_output=True, text=True, cwd=d, env=env, timeout=300)
+                             "--output-file", "one.h"] + tflag + [main], capture_output=True, text=True, cwd=d, env=env, timeout=300)
         r2 = subprocess.run([sys.executable, "-m", "compiler.front_end.emboss_front_end", "--color-output", "never", "--import-dir", d,
                              "--output-file", os.path.join(d, "ir.json"), main], capture_output=True, text=True, cwd=common.REPO, env=env, timeout=300)
         if r1.returncode != r2.returncode:
@@ -151,7 +158,7 @@ def run_subprocess_equivalence(files, main):
         if r1.returncode != 0:
             return None
         r3 = subprocess.run([sys.executable, "-m", "compiler.back_end.cpp.emboss_codegen_cpp", "--color-output", "never", "--input-file",
-                             os.path.join(d, "ir.json"), "--output-file", os.path.join(d, "two.h")], capture_output=True, text=True,
+                             os.path.join(d, "ir.json"), "--output-file", os.path.join(d, "two.h")] + tflag, capture_output=True, text=True,
                             cwd=common.REPO, env=env, timeout=300)
         if r3.returncode != 0:
             return "codegen failed on the front end's IR: " + r3.stderr[-400:]
@@ -206,9 +213,14 @@ def check_files(files, main, label, do_sub):
         viol.append({"key": "header-from-reread-ir-differs", "msg": "%s: first difference at line %d: %r vs %r" % (
             label, where + 1, la[where][:100] if where >= 0 else "", lb[where][:100] if where >= 0 else ""), "detail": detail})
     if do_sub:
-        r = run_subprocess_equivalence(files, main)
-        if r:
-            viol.append({"key": "split-pipeline-differs", "msg": "%s: %s" % (label, r), "detail": detail})
+        variants = [(True, False)]
+        if do_sub == "all":
+            variants = [(True, False), (False, False), (True, True)]
+        for traits, odd in variants:
+            r = run_subprocess_equivalence(files, main, traits, odd)
+            if r:
+                viol.append({"key": "split-pipeline-differs", "msg": "%s (enum traits %s%s): %s" % (
+                    label, "on" if traits else "off", ", non-UTF-8 file name" if odd else "", r), "detail": detail})
     return {"viol": viol, "n": 1, "nt": [label], "cov": sorted(cov), "stats": {"accepted": 1, "subprocess_runs": int(bool(do_sub))}}
 
 
